@@ -885,4 +885,132 @@ Proof.
       unfold poll_parses. rewrite Esb. split; discriminate.
 Qed.
 
+(* item 1, end of file persists: once the parser stands at the header that ends the active stream, every
+   read into a non-empty buffer returns Ok(0) again without touching the transport (the only other
+   outcomes are those of flushing pending output first), until set_stream selects another stream *)
+Theorem poll_input_eof fuel c r w p r' w' :
+  pinv (rsp r) -> at_term (abs (rsp r)) = true -> stream_buffer (rsp r) = [] -> 0 < c ->
+  (length (wscript w) + 1 < fuel)%nat ->
+  poll_input maxc fuel (Some c) r w = (p, r', w') ->
+  remaining w' = remaining w /\ rscript w' = rscript w /\ pinv (rsp r') /\
+  at_term (abs (rsp r')) = true /\ stream_buffer (rsp r') = [] /\
+  match p with
+  | PReady (inl (n, b)) => n = 0 /\ b = []
+  | PReady (inr k) => (k = EK_WriteZero \/ k = EK_Transport) /\ output_buffer (rsp r) <> []
+  | PWake => output_buffer (rsp r) <> []
+  | PBlock => False
+  end /\
+  (output_buffer (rsp r) = [] -> p = PReady (inl (0, [])) /\ w' = w).
+Proof.
+  intros Hinv Ht Esb Hc Hf E.
+  unfold poll_input in E. cbv zeta in E. rewrite Esb in E. destruct c as [|pc]; [lia|]. cbv beta iota in E.
+  destruct (poll_output fuel r w) as [[po r1] w1] eqn:EPO.
+  destruct (poll_output_acct _ _ _ _ _ _ EPO Hinv Hf) as (A1 & Q1 & Q2 & Q3 & Q4 & Q5 & _ & Q6 & Q7).
+  destruct (poll_output_abs _ _ _ _ _ _ EPO Hinv Hf) as (fl & _ & (Hrs & _) & _ & _ & HA & _).
+  assert (Ht1 : at_term (abs (rsp r1)) = true) by (rewrite HA; exact Ht).
+  rewrite Esb in Q2.
+  assert (NE : po <> PReady (inl tt) -> output_buffer (rsp r) <> []).
+  { intros Hpo Ho. apply Hpo. apply (Q6 Ho). }
+  destruct po as [[u|k]| |].
+  - destruct fuel as [|f]; [lia|]. cbn [input_loop] in E.
+    destruct (sparse_at_term (rsp r1) (Some (N.pos pc)) (ac_inv _ _ _ _ _ _ A1) ltac:(intros _; exact Q2) Ht1)
+      as (p2 & s & ES & I2 & A2 & S2 & E1 & E2 & E3 & E4).
+    rewrite ES, E1 in E. cbn [orb] in E.
+    remember (if negb (rwriteable (mkR p2 (rwriteable r1) (rlock r1))) && is_final_stream (mkR p2 (rwriteable r1) (rlock r1))
+              then mkR p2 true (rlock r1) else mkR p2 (rwriteable r1) (rlock r1)) as r2 eqn:Er2.
+    assert (H2 : rsp r2 = p2) by (subst r2; destruct (_ && _); reflexivity).
+    injection E as <- <- <-. rewrite H2, E2, E3.
+    split; [exact Q1|]. split; [exact Hrs|]. split; [exact I2|]. split; [rewrite A2; exact Ht1|].
+    split; [change (stream_buffer p2) with (a_parsed (abs p2)); rewrite A2; exact Q2|].
+    split; [split; reflexivity|]. intros Ho. destruct (Q6 Ho) as (_ & -> & _). split; reflexivity.
+  - injection E as <- <- <-.
+    split; [exact Q1|]. split; [exact Hrs|]. split; [apply A1|]. split; [exact Ht1|]. split; [exact Q2|].
+    split; [split; [exact Q7|apply NE; discriminate]|]. intros Ho. destruct (Q6 Ho) as (Hx & _). discriminate Hx.
+  - injection E as <- <- <-.
+    split; [exact Q1|]. split; [exact Hrs|]. split; [apply A1|]. split; [exact Ht1|]. split; [exact Q2|].
+    split; [apply NE; discriminate|]. intros Ho. destruct (Q6 Ho) as (Hx & _). discriminate Hx.
+  - contradiction.
+Qed.
+
+(* when does a read return Ok(0)?  only at the end of the stream (no stream selected, or the parser in front
+   of the terminating header), with nothing buffered *)
+Corollary poll_input_zero_is_eof fuel c r w b r' w' :
+  pinv (rsp r) -> bytes_ok (remaining w) -> (length (wscript w) + length (remaining w) + 2 <= fuel)%nat -> 0 < c ->
+  poll_input maxc fuel (Some c) r w = (PReady (inl (0, b)), r', w') ->
+  b = [] /\ eos (abs (rsp r')) /\ stream_buffer (rsp r') = [] /\ K (abs (rsp r)) (remaining w) = K (abs (rsp r')) (remaining w').
+Proof.
+  intros Hinv Hrem Hf Hc E. destruct (poll_input_reads _ _ _ _ _ _ _ Hinv Hrem Hf E) as (dl & A & C & _).
+  cbn [pi_case] in C. destruct C as (-> & C1 & _ & C3). destruct (C3 Hc eq_refl) as [C4 C5].
+  assert (b = []) by (apply len_zero_nil; exact C1). subst b.
+  split; [reflexivity|]. split; [exact C4|]. split; [exact C5|]. apply (ac_K _ _ _ _ _ _ A).
+Qed.
+
+(* item 4 (C11): the error kind Aborted is reported exactly for the parser error AbortRequest, i.e. when the
+   parser stands at an AbortRequest header of this request *)
+Lemma perr_kind_aborted e : perr_kind e = EK_Aborted <-> e = EAbortRequest.
+Proof. split; [destruct e; cbn [perr_kind]; intros H; try discriminate H; reflexivity|intros ->; reflexivity]. Qed.
+
+Corollary poll_input_aborted fuel dest r w r' w' :
+  pinv (rsp r) -> bytes_ok (remaining w) -> (length (wscript w) + length (remaining w) + 2 <= fuel)%nat ->
+  poll_input maxc fuel dest r w = (PReady (inr EK_Aborted), r', w') -> err_at (abs (rsp r')) EAbortRequest.
+Proof.
+  intros Hinv Hrem Hf E. destruct (poll_input_reads _ _ _ _ _ _ _ Hinv Hrem Hf E) as (dl & A & C & _).
+  cbn [pi_case] in C. destruct C as [(e & C1 & C2 & C3 & _)|[(_ & C1 & _)|(_ & [C1|C1])]]; try discriminate C1.
+  symmetry in C1. apply perr_kind_aborted in C1. subst e. exact C2.
+Qed.
+
+Lemma input_loop_err f dest new r w p' e s : sparse maxc (rsp r) new dest = StErr p' e s ->
+  input_loop maxc (S f) dest new r w = (PReady (inr (perr_kind e)), mkR p' (rwriteable r) (rlock r), w).
+Proof. intros E. cbn [input_loop]. rewrite E. reflexivity. Qed.
+
+(* record_boundary treats AbortRequest as "a record boundary was reached, go on": the parser stands at the
+   AbortRequest header, which is a boundary *)
+Lemma err_at_boundary p e : err_at (abs p) e -> is_record_boundary p = true.
+Proof. intros (H1 & H2 & _). cbn [abs a_prem a_pad] in H1, H2. unfold is_record_boundary. rewrite H1, H2. reflexivity. Qed.
+
+Theorem boundary_loop_abort f new r w p' s :
+  pinv (rsp r) -> bytes_ok new -> len new <= sinput_space (rsp r) ->
+  sparse maxc (rsp r) new None = StErr p' EAbortRequest s ->
+  boundary_loop maxc (S f) new r w = Ok (None, mkR p' (rwriteable r) (rlock r)) w /\ err_at (abs p') EAbortRequest.
+Proof.
+  intros Hinv Hnew Hfit E.
+  pose proof (sparse_step (rsp r) new None Hinv Hnew Hfit ltac:(intros H; contradiction)) as SS. rewrite E in SS.
+  destruct SS as (_ & He & _). split; [|exact He].
+  cbn [boundary_loop]. rewrite E. rewrite (err_at_boundary p' _ He). reflexivity.
+Qed.
+
+Lemma record_boundary_at_err r w e : err_at (abs (rsp r)) e -> record_boundary maxc r w = Ok (None, r) w.
+Proof. intros He. unfold record_boundary. rewrite (err_at_boundary _ _ He). reflexivity. Qed.
+
+(* item 2a (C08): poll_input suspends without a wake-up only with nothing owed: every reply produced so far is in
+   the transport's log, the stream buffer is empty, and the client's next bytes are gated *)
+Corollary poll_input_block fuel dest r w r' w' :
+  pinv (rsp r) -> bytes_ok (remaining w) -> (length (wscript w) + length (remaining w) + 2 <= fuel)%nat ->
+  poll_input maxc fuel dest r w = (PBlock, r', w') ->
+  output_buffer (rsp r') = [] /\ stream_buffer (rsp r') = [] /\ gated w' /\
+  K (abs (rsp r)) (remaining w) = K (abs (rsp r')) (remaining w') /\
+  exists flushed, wlog w' = wlog w ++ flushed /\ a_out (abs (rsp r')) = [] /\
+                  R maxc (abs (rsp r)) (remaining w) = flushed ++ R maxc (abs (rsp r')) (remaining w').
+Proof.
+  intros Hinv Hrem Hf E. destruct (poll_input_reads _ _ _ _ _ _ _ Hinv Hrem Hf E) as (dl & A & C & _).
+  cbn [pi_case] in C. destruct C as (-> & C1 & C2 & C3 & C4).
+  split; [exact C1|]. split; [exact C3|]. split; [exact C4|]. split; [apply (ac_K _ _ _ _ _ _ A)|].
+  destruct (ac_R _ _ _ _ _ _ A) as (fl & L & RR). exists fl. split; [exact L|]. split; [exact C1|exact RR].
+Qed.
+
+(* the same for the awaited form: the task deadlocks inside poll_fn(poll_input) only with nothing owed *)
+Corollary await_input_deadlock fuel dest r w w' :
+  pinv (rsp r) -> bytes_ok (remaining w) -> await_input maxc fuel dest r w = Halt ODeadlock w' ->
+  gated w' /\
+  exists r' flushed, output_buffer (rsp r') = [] /\ stream_buffer (rsp r') = [] /\
+     wlog w' = wlog w ++ flushed /\
+     R maxc (abs (rsp r)) (remaining w) = flushed ++ R maxc (abs (rsp r')) (remaining w') /\
+     K (abs (rsp r)) (remaining w) = K (abs (rsp r')) (remaining w').
+Proof.
+  intros Hinv Hrem E. pose proof (await_input_reads fuel dest r w Hinv Hrem) as H. rewrite E in H.
+  cbn [ai_post] in H. destruct H as (r' & A & _ & _ & _ & D). destruct (D eq_refl) as (D1 & D2 & D3).
+  split; [exact D3|]. destruct (ac_R _ _ _ _ _ _ A) as (fl & L & RR). exists r', fl.
+  split; [exact D1|]. split; [exact D2|]. split; [exact L|]. split; [exact RR|apply (ac_K _ _ _ _ _ _ A)].
+Qed.
+
 End Reads.
